@@ -36,9 +36,12 @@ STUBBED = ["the OS: processes = groups of simulated threads running the real _pr
 ASSUMPTIONS = ["a SIGKILLed process stops between two yield points of the simulation (pipe writes are cut at 16 KiB chunk "
                "boundaries), keeps the locks it holds, and its sentinel becomes ready at once",
                "worker processes share one interpreter: per-process state is limited to what _process_worker keeps in globals"]
-N_RUNS = {"quick": 400, "thorough": 20000}
+N_RUNS = {"quick": 1000, "thorough": 30000}
 
-KINDS = ["pwrite", "pwrite", "pwrite", "pread", "sem_acq", "acq", "rel", "sleep", "task", "any", "global"]
+KINDS = ["pwrite", "pwrite", "pread", "sem_acq", "acq", "rel", "sleep", "task", "any", "global",
+         # life-cycle targeted: the victim is the worker whose real Python stack matches the label for the n-th time
+         "label:receiving_call", "label:unpickling_call", "label:running_task", "label:sending_result:pickling",
+         "label:sending_result:acquiring", "label:sending_result:holding", "label:sending_result:inside", "label:idle"]
 W = None
 
 
@@ -85,7 +88,7 @@ def run_case(case):
     tmp = tempfile.mkdtemp(prefix="c10_", dir="/dev/shm")
     os.environ["JOBLIB_TEMP_FOLDER"] = tmp
     s = ds.run_sim(case["sched_seed"], None, decisions=case.get("decisions"), strategy=case.get("strategy"),
-                   trace_files=sp.TRACE_FILES, max_steps=case.get("max_steps", 400000), max_time=600.0,
+                   trace_files=sp.TRACE_FILES, max_steps=case.get("max_steps", 400000), max_time=case.get("max_time", 150.0),
                    keep_log=case.get("keep_log", 0))
     W = world = sp.World()
     sp.install(s, world)
@@ -103,6 +106,12 @@ def run_case(case):
                     alive = [p for p in world.procs if p.alive]
                     if alive:
                         victim = alive[k["pick"] % len(alive)]
+            elif k["kind"].startswith("label:"):
+                if me.proc is not None and me.proc.alive and me.role == "workerproc" and kind != "pre":
+                    if sp.where_is(me.proc).startswith(k["kind"][6:]):
+                        k["nth"] -= 1
+                        if k["nth"] <= 0:
+                            victim = me.proc
             elif me.proc is not None and me.proc.alive and (k["kind"] == "any" or kind == k["kind"]):
                 k["nth"] -= 1
                 if k["nth"] <= 0:
